@@ -16,6 +16,8 @@ package main
 //   str      jsoniter Stream.WriteString and encoding/json.Marshal vs Json.escJ / Json.escStd; the model parser reads the
 //            implementation's text back.
 //   parser   Json.parseDoc vs encoding/json.Valid and the byte-exact Go reader on generated and mutated texts.
+//   sizes    (c15_sizes.go) every encoder on result sets of the size classes around the batching constants of the source
+//            (Gen.C15Batch) and, in the search and thorough tiers, of every size 0..450.
 
 import (
 	"bytes"
@@ -742,6 +744,7 @@ type c15Replay struct {
 	Body    string `json:"body_hex,omitempty"`
 	Note    string `json:"note,omitempty"`
 	Rows    any    `json:"rows,omitempty"`
+	Cuts    []int  `json:"cuts,omitempty"` // batch sizes of a TraceQL search case
 }
 
 type c15Pending struct {
@@ -1697,7 +1700,11 @@ func c15(r *h.Result, rng *h.Rng, tier string, replay string) error {
 		"3 batchings each (one batch + EOF marker; random cuts with empty batches; one entry per batch with markers inside), 6% with an error entry; " +
 		"labels/lines over all bytes (JSON metacharacters, control bytes, DEL, invalid and boundary UTF-8, U+2028/9); floats: integers, dyadic, extreme " +
 		"magnitudes, subnormal, NaN/Inf, random bit patterns; timestamps: 0..2, negative, int64 extremes, realistic ns (matrix: millisecond-aligned); " +
-		"non-trivial = at least two series runs or first fingerprint 0; distinct by case text"
+		"non-trivial = at least two series runs or first fingerprint 0; distinct by case text. " +
+		"sizes: every encoder on result sets of the size classes 0..3, c-1, c, c+1, 2c-1, 2c, 2c+1, 3c, 3c+1 around every batching constant c regenerated " +
+		"from the source (Gen.C15Batch: 10, 100, 2000, 3000 on the pinned tree) and 1000, 1001; in the search and thorough tiers every size 0..450; " +
+		"short distinct rows with escaping-relevant bytes at the batch edges; batchings as Scan cuts them, one batch, c+1 with an empty batch, random; " +
+		"non-trivial = at least two rows; distinct by kind, size and row hash"
 	if replay != "" {
 		return c15Replayer(r, replay)
 	}
@@ -1710,6 +1717,7 @@ func c15(r *h.Result, rng *h.Rng, tier string, replay string) error {
 		func() error { return c15LabelsStream(r, rng.Fork(), env, nLbl) },
 		func() error { return c15Tempo(r, rng.Fork(), nTempo) },
 		func() error { return c15Prom(r, rng.Fork(), nProm) },
+		func() error { return c15SizesStream(r, rng.Fork(), env, tier) },
 	}
 	for i, s := range steps {
 		t0 := time.Now()
@@ -1735,6 +1743,9 @@ func c15Replayer(r *h.Result, path string) error {
 	}
 	rep := f.Replay
 	r.Stream("replay of " + path)
+	if rep.Stream == "sizes" {
+		return c15ReplayList(r, rep)
+	}
 	if rep.Batches == "" && rep.Stream != "enc" && rep.Stream != "sql" {
 		r.Notes = append(r.Notes, "replay files of this stream carry the request and the response (body_hex); re-run the tier with the recorded seed to regenerate")
 		return nil
